@@ -1,3 +1,362 @@
-import CLModel.Model.Curve
+import CLModel.Proofs.Codec
+/-!
+# C16 — Decoding accepts only canonical members of the intended group or set
+
+Per primitive two decoders (`Model/Codec.lean`, `Model/Curve.lean`): `impl*` mirrors the code
+path of the repository, `spec*` is the property.  This file proves
+
+* `*_spec_sound`   — what the specification accepts is a member (shape, range, curve equation,
+                     `r•P = O`, identity only where allowed, `g^r = 1`) and
+  `*_spec_reencode` — every member's encoding is accepted with that value;
+* `*_impl_refines_spec` — where the implementation has the property: integers from text (both
+  back-ends, decimal and hexadecimal, every string), integers from bytes, scalars from text and
+  from bytes;
+* where it does not (points and pairing values) a **witness theorem** with the concrete input —
+  the machine-checked description of the known findings — and a `_partial` theorem with the
+  excluded inputs as hypotheses.
+
+The curve-level predicates (`onCurveAff`, `inSubgroup`, `F12.pow`) are the executable arithmetic
+of `Model/Curve.lean`; that this arithmetic is the group law of BN254 is NOT proved here — it is
+validated against the `amcl` crate by the correspondence streams.
+-/
 namespace CL.C16
+open CL.Outcome CL.Codec CL.Curve
+
+/-! ## integers -/
+
+/-- **`impl_refines_spec` for integers from text, as an equality**: `BigNumber::from_dec` and
+`from_hex` of both back-ends accept a string iff it is in its entirety a numeral (`-?[0-9]+`,
+`-?[0-9a-fA-F]+`), with the numeral's value, and refuse everything else with `Err` -/
+theorem int_text_impl_eq_spec (b : Backend) (s : BN.Text) :
+    implBnText b 10 s = specBnText 10 s ∧ implBnText b 16 s = specBnText 16 s :=
+  ⟨implBnText_eq_spec b 10 (Or.inl rfl) s, implBnText_eq_spec b 16 (Or.inr rfl) s⟩
+
+theorem int_text_impl_refines_spec (b : Backend) (s : BN.Text) (v : ℤ) :
+    (implBnText b 10 s = ok v → specBnText 10 s = ok v) ∧ (implBnText b 16 s = ok v → specBnText 16 s = ok v) := by
+  obtain ⟨h1, h2⟩ := int_text_impl_eq_spec b s
+  exact ⟨fun h => h1 ▸ h, fun h => h2 ▸ h⟩
+
+/-- no string makes the integer decoders panic (the NUL character that made the `openssl` crate
+panic is refused by `is_numeral` first) -/
+theorem int_text_never_panics (b : Backend) (s : BN.Text) :
+    implBnText b 10 s ≠ panic ∧ implBnText b 16 s ≠ panic := by
+  obtain ⟨h1, h2⟩ := int_text_impl_eq_spec b s
+  exact ⟨h1 ▸ specBnText_not_panic 10 s, h2 ▸ specBnText_not_panic 16 s⟩
+
+/-- `spec_sound`: what the specification reads is a numeral of the grammar -/
+theorem int_spec_sound (radix : ℕ) (s : BN.Text) (v : ℤ) (h : specBnText radix s = ok v) :
+    BN.isNumeral radix s = true := by
+  cases hn : BN.isNumeral radix s with
+  | true => rfl
+  | false =>
+    have := (BN.Spec.parseNumeral_isNumeral radix s).2 hn
+    unfold specBnText at h
+    rw [this] at h; simp at h
+
+/-- `spec_reencode`: the decimal text of every integer is read with that value -/
+theorem int_spec_reencode (z : ℤ) : specBnText 10 (bnDecEncode z) = ok z :=
+  BN.Spec.parseNumeral_print 10 (Or.inl rfl) z
+
+/-- regression witnesses of the repaired defects (`"5x"`, `"+5"`, `"1_000"`, `"0x10"`, the empty
+string and a NUL character are refused by both back-ends) -/
+theorem dec_garbage_refused :
+    implBnText .openssl 10 "5x".toList = err ∧ implBnText .rust 10 "+5".toList = err ∧
+    implBnText .rust 10 "1_000".toList = err ∧ implBnText .openssl 10 "0x10".toList = err ∧
+    implBnText .openssl 10 [] = err ∧ implBnText .openssl 10 ['5', Char.ofNat 0] = err ∧
+    implBnText .openssl 10 "-007".toList = ok (-7) := by decide
+
+/-- integers from bytes: every byte string denotes a natural number; implementation and
+specification coincide -/
+theorem int_bytes_impl_eq_spec (bs : BN.Bytes) : implBnBytes bs = specBnBytes bs := rfl
+
+/-! ## scalars -/
+
+/-- the scalar decoders of the repository ARE the specification (hexadecimal digits only, 1..71
+of them, value reduced modulo `r`; at most 32 bytes, reduced) -/
+theorem scalar_impl_eq_spec (s : String) (bs : List UInt8) :
+    implScText s = specScText s ∧ implScBytes bs = specScBytes bs := ⟨rfl, rfl⟩
+
+/-- `spec_sound` for scalar text: an accepted string is non-empty, at most 71 characters, every
+character a hexadecimal digit, and the value is the string's value modulo `r` (hence `< r`) -/
+theorem scalar_text_spec_sound (s : String) (v : ℕ) (h : specScText s = ok v) :
+    s.toList ≠ [] ∧ s.toList.length ≤ 71 ∧
+    ∃ w, Sc.hexVal s.toList (some 0) = some w ∧ v = w % Sc.r ∧ v < Sc.r := by
+  unfold specScText Sc.fromString at h
+  cases hc : s.toList with
+  | nil => rw [hc] at h; simp at h
+  | cons c cs =>
+    rw [hc] at h
+    simp only at h
+    cases hv : Sc.hexVal (c :: cs) (some 0) with
+    | none => rw [hv] at h; simp at h
+    | some w =>
+      rw [hv] at h
+      simp only at h
+      split_ifs at h with hl
+      injection h with h
+      exact ⟨by simp, by omega, w, rfl, h.symm, h ▸ Nat.mod_lt _ Sc.r_pos⟩
+
+/-- `spec_reencode` for scalars: the 64-digit text of every `x < r` is accepted with value `x` -/
+theorem scalar_spec_reencode (x : ℕ) (h : x < Sc.r) : specScText (Sc.toHex x) = ok x :=
+  sc_fromString_toHex x h
+
+/-- scalar bytes: accepted iff at most 32 bytes; the value is `< r`; the 32-byte form of `x < r`
+is accepted with value `x` -/
+theorem scalar_bytes_spec_sound (bs : List UInt8) (v : ℕ) (h : specScBytes bs = ok v) :
+    bs.length ≤ 32 ∧ v < Sc.r := by
+  unfold specScBytes Sc.fromBytes at h
+  by_cases hl : bs.length > 32
+  · simp [hl] at h
+  · simp only [hl, if_false] at h
+    injection h with h
+    exact ⟨by omega, h ▸ Nat.mod_lt _ Sc.r_pos⟩
+
+theorem scalar_nonhex_refused :
+    implScText "" = err ∧ implScText "xyz" = err ∧ implScText "+5" = err ∧ implScText "-1" = err ∧
+    implScText "1f" = ok 31 := by decide
+
+/-! ## points of `E'(Fp2)`: 128-byte form -/
+
+set_option maxRecDepth 100000 in
+/-- **`spec_sound`** (bytes, G2): an accepted byte string has exactly 128 bytes; the value is the
+identity only for the identity-carrying type and only from the identity's own encoding; an
+affine value has coordinates `< p`, satisfies the curve equation and `r•P = O` -/
+theorem g2_bytes_spec_sound (allowInf : Bool) (bs : Bytes) (v : AffPt)
+    (h : specG2Bytes allowInf bs = .ok v) :
+    bs.length = 128 ∧
+    (v = .inf → allowInf = true ∧ bs = g2IdBytes) ∧
+    (∀ x y, v = .aff x y → x.a < p ∧ x.b < p ∧ y.a < p ∧ y.b < p ∧
+      onCurveAff B2 x y = true ∧ inSubgroup B2 (Pt.ofAffine x y) = true) := by
+  unfold specG2Bytes at h
+  by_cases hl : bs.length ≠ 128
+  · simp [hl] at h
+  · simp only [hl, if_false] at h
+    by_cases hr : beNat (slice bs 0 32) ≥ p ∨ beNat (slice bs 32 32) ≥ p ∨ beNat (slice bs 64 32) ≥ p ∨
+        beNat (slice bs 96 32) ≥ p
+    · simp [hr] at h
+    · simp only [hr, if_false] at h
+      by_cases hid : bs = g2IdBytes
+      · simp only [hid, if_true] at h
+        cases allowInf with
+        | false => simp at h
+        | true =>
+          simp only [if_true] at h
+          injection h with h
+          subst h
+          exact ⟨by omega, fun _ => ⟨rfl, hid⟩, fun x y hv => by cases hv⟩
+      · simp only [hid, if_false] at h
+        split_ifs at h with hc
+        injection h with h
+        subst h
+        simp only [Bool.and_eq_true] at hc
+        refine ⟨by omega, fun hv => (by cases hv), ?_⟩
+        intro x y hv
+        injection hv with hx hy
+        subst hx; subst hy
+        refine ⟨?_, ?_, ?_, ?_, hc.1, hc.2⟩ <;> (dsimp only; omega)
+
+set_option maxRecDepth 100000 in
+/-- **`impl_refines_spec` for G2 bytes, partial**: when `from_bytes` returns an affine point whose
+encoding had reduced coordinates and the point is in the order-`r` subgroup, the specification
+accepts the same value.  EXCLUDED (and false, see the witnesses below): identity results
+(garbage decodes to the identity), unreduced coordinates, points outside the subgroup. -/
+theorem g2_bytes_impl_refines_spec_partial (allowInf : Bool) (bs : Bytes) (x y : F2)
+    (h : implG2Bytes bs = .ok (.aff x y))
+    (hred : beNat (slice bs 0 32) < p ∧ beNat (slice bs 32 32) < p ∧ beNat (slice bs 64 32) < p ∧
+      beNat (slice bs 96 32) < p)
+    (hsub : inSubgroup B2 (Pt.ofAffine x y) = true) (hid : bs ≠ g2IdBytes) :
+    specG2Bytes allowInf bs = .ok (.aff x y) := by
+  unfold implG2Bytes at h
+  by_cases hl : bs.length ≠ 128
+  · simp [hl] at h
+  · simp only [hl, if_false] at h
+    obtain ⟨h0, h1, h2, h3⟩ := hred
+    rw [Nat.mod_eq_of_lt h0, Nat.mod_eq_of_lt h1, Nat.mod_eq_of_lt h2, Nat.mod_eq_of_lt h3] at h
+    split_ifs at h with hc
+    · obtain ⟨hx, hy⟩ := AffPt.aff.inj (Res.ok.inj h)
+      unfold specG2Bytes
+      have hr : ¬ (beNat (slice bs 0 32) ≥ p ∨ beNat (slice bs 32 32) ≥ p ∨ beNat (slice bs 64 32) ≥ p ∨
+          beNat (slice bs 96 32) ≥ p) := by omega
+      simp only [hl, if_false, hr, hid]
+      rw [hx, hy]
+      rw [hx, hy] at hc
+      simp [hc, hsub]
+    · cases h
+
+/-- the decoders of points never panic in the model (they have no panicking branch; on the real
+code this is observed by the stream `dec`) -/
+theorem point_bytes_never_panic (bs : Bytes) :
+    implG2Bytes bs ≠ .panic ∧ implG1Bytes bs ≠ .panic ∧ implPairBytes bs ≠ .panic := by
+  refine ⟨?_, ?_, ?_⟩
+  · intro h; unfold implG2Bytes at h; dsimp only at h
+    split_ifs at h <;> exact Res.noConfusion h
+  · intro h; unfold implG1Bytes at h; dsimp only at h
+    split_ifs at h <;> exact Res.noConfusion h
+  · intro h; unfold implPairBytes at h
+    split_ifs at h <;> exact Res.noConfusion h
+
+/-! ### witnesses: where `impl_refines_spec` is false on the current tree -/
+
+/-- an on-curve point of the twist that was NOT multiplied by the cofactor (made with amcl) -/
+def nsX : F2 := ⟨12214187476470319728671463654900646951684427820737398340746762120969327979992,
+  14978703254077787510501997220206000319055359354888319862502512115579773887370⟩
+def nsY : F2 := ⟨570642313185843666250400463536005809913251430041897960506508162675089900007,
+  6823953241352100859322530734992916439959569698901886965106508844282730553189⟩
+
+set_option maxRecDepth 100000 in
+/-- **finding `C16/g2_subgroup_unchecked`**: the point `(nsX, nsY)` satisfies the twist equation, is
+not in the subgroup of order `r` (`r•P ≠ O`), and its 128-byte encoding is ACCEPTED by
+`PointG2::from_bytes` / `PointG2Inf::from_bytes` while the specification refuses it -/
+theorem g2_nonsubgroup_accepted :
+    onCurveAff B2 nsX nsY = true ∧ inSubgroup B2 (Pt.ofAffine nsX nsY) = false ∧
+    implG2Bytes (g2BytesOfAffine nsX nsY) = .ok (.aff nsX nsY) ∧
+    specG2Bytes false (g2BytesOfAffine nsX nsY) = .err ∧
+    specG2Bytes true (g2BytesOfAffine nsX nsY) = .err := by decide +kernel
+
+set_option maxRecDepth 100000 in
+/-- the same point in text form (projective `(x : y : 1)`, Montgomery residues): accepted by
+`PointG2::from_string` / `from_string_inf`, refused by the specification -/
+theorem g2_nonsubgroup_accepted_text :
+    (implG2Text false (g2TextOfAffine nsX nsY)).tag = "ok" ∧ (implG2Text true (g2TextOfAffine nsX nsY)).tag = "ok" ∧
+    (specG2Text false (g2TextOfAffine nsX nsY)).tag = "err" ∧ (specG2Text true (g2TextOfAffine nsX nsY)).tag = "err" := by
+  decide +kernel
+
+set_option maxRecDepth 100000 in
+/-- **finding `C16/g2_bytes_invalid_to_identity`** (`bytes_garbage_accepted`): 128 zero bytes — and
+128 bytes `01 02 03 …` — are not on the curve; `from_bytes` returns the IDENTITY without an error,
+for `PointG2` (which must not hold the identity) as for `PointG2Inf` -/
+theorem g2_bytes_garbage_accepted :
+    implG2Bytes (List.replicate 128 0) = .ok .inf ∧ specG2Bytes true (List.replicate 128 0) = .err ∧
+    specG2Bytes false (List.replicate 128 0) = .err ∧
+    implG2Bytes ((List.range 128).map (· + 1)) = .ok .inf ∧
+    specG2Bytes true ((List.range 128).map (· + 1)) = .err := by decide +kernel
+
+set_option maxRecDepth 100000 in
+/-- **finding `C16/g1_bytes_invalid_to_identity`**: the same for `PointG1::from_bytes` (unknown tag
+byte, off-curve pair); and the identity's own encoding is accepted although `PointG1` has no
+identity-carrying type -/
+theorem g1_bytes_garbage_accepted :
+    implG1Bytes (List.replicate 128 0) = .ok .inf ∧ specG1Bytes (List.replicate 128 0) = .err ∧
+    implG1Bytes ([4] ++ toBE 32 5 ++ toBE 32 7 ++ List.replicate 63 0) = .ok .inf ∧
+    specG1Bytes ([4] ++ toBE 32 5 ++ toBE 32 7 ++ List.replicate 63 0) = .err ∧
+    implG1Bytes g1IdBytes = .ok .inf ∧ specG1Bytes g1IdBytes = .err := by decide +kernel
+
+set_option maxRecDepth 100000 in
+/-- **finding `C16/g2_bytes_coordinate_not_reduced`**: adding `p` to a coordinate (still `< 2^256`)
+gives a second encoding of the generator that `from_bytes` accepts with the same value -/
+theorem g2_bytes_unreduced_coordinate_accepted :
+    let gx : F2 := ⟨0x061A10BB519EB62FEB8D8C7E8C61EDB6A4648BBB4898BF0D91EE4224C803FB2B, 0x0516AAF9BA737833310AA78C5982AA5B1F4D746BAE3784B70D8C34C1E7D54CF3⟩
+    let gy : F2 := ⟨0x021897A06BAF93439A90E096698C822329BD0AE6BDBE09BD19F0E07891CD2B9A, 0x0EBB2B0E7C8B15268F6D4456F5F38D37B09006FFD739C9578A2D1AEC6B3ACE9B⟩
+    let bs := toBE 32 (gx.a + p) ++ toBE 32 gx.b ++ toBE 32 gy.a ++ toBE 32 gy.b
+    implG2Bytes bs = .ok (.aff gx gy) ∧ specG2Bytes false bs = .err ∧
+    specG2Bytes false (g2BytesOfAffine gx gy) = .ok (.aff gx gy) := by decide +kernel
+
+set_option maxRecDepth 100000 in
+/-- **finding `C16/identity_smuggled_as_residue_p`**: in text form the identity written with the
+residue `p` (≡ 0) and excess counter 1 in `x` and `z` passes the curve test and is not recognised
+as the identity by amcl's `is_infinity` (`FP::reduce` makes no subtraction for counter 1):
+`PointG1::from_string` accepts it; with counter 2 it is recognised and refused -/
+theorem g1_identity_smuggled_text :
+    (implG1Text false (rawText [⟨1, p⟩, ⟨1, Rm⟩, ⟨1, p⟩])).tag = "ok" ∧
+    (specG1Text (rawText [⟨1, p⟩, ⟨1, Rm⟩, ⟨1, p⟩])).tag = "err" ∧
+    (implG1Text false (rawText [⟨2, p⟩, ⟨1, Rm⟩, ⟨2, p⟩])).tag = "err" ∧
+    (implG1Text false (rawText [⟨1, 0⟩, ⟨2, Rm⟩, ⟨1, 0⟩])).tag = "err" := by decide +kernel
+
+set_option maxRecDepth 100000 in
+/-- **findings `C16/pair_text_zero_accepted`, `C16/pair_bytes_unvalidated`**: the zero element of
+`Fp12` passes `is_valid_pair` (`frob²(0) = frob⁴(0)·0`) and 512 zero bytes are accepted by
+`Pair::from_bytes`; zero is not a member (`0^r ≠ 1`) -/
+theorem pair_zero_accepted :
+    (implPairText (rawText (List.replicate 12 ⟨1, 0⟩))).tag = "ok" ∧
+    (specPairText (rawText (List.replicate 12 ⟨1, 0⟩))).tag = "err" ∧
+    (implPairBytes (List.replicate 512 0)).tag = "ok" ∧ (specPairBytes (List.replicate 512 0)).tag = "err" := by
+  decide +kernel
+
+set_option maxRecDepth 100000 in
+/-- regression witnesses of the repaired text-form defects: an index above `FEXCESS` (in particular
+above `i32::MAX`, which made amcl panic), the index `0`, a 71-digit residue and a non-hex residue
+are refused; the generator's text is accepted by implementation and specification -/
+theorem point_text_regressions :
+    (implG1Text false "4294967295 01 1 01 1 01".toList).tag = "err" ∧
+    (implG1Text false "67108864 01 1 01 1 01".toList).tag = "err" ∧
+    (implG1Text false "0 01 1 01 1 01".toList).tag = "err" ∧
+    (implG1Text false ("1 ".toList ++ List.replicate 71 '0' ++ " 1 01 1 01".toList)).tag = "err" ∧
+    (implG1Text false "1 0g 1 01 1 01".toList).tag = "err" ∧
+    (implG1Text false (g1TextOfAffine (p - 1) 1)).tag = "ok" ∧ (specG1Text (g1TextOfAffine (p - 1) 1)).tag = "ok" := by
+  decide +kernel
+
+/-! ## `spec_reencode` for G2 bytes -/
+
+/-- **`spec_reencode`** (bytes, G2): the encoding of every affine member (coordinates `< p`, on the
+curve, `r•P = O`) is accepted with that value, for both types; the identity's encoding is
+accepted exactly by the identity-carrying type -/
+theorem g2_bytes_spec_reencode (allowInf : Bool) (x y : F2) (hxa : x.a < p) (hxb : x.b < p)
+    (hya : y.a < p) (hyb : y.b < p) (hc : onCurveAff B2 x y = true)
+    (hs : inSubgroup B2 (Pt.ofAffine x y) = true) (hid : g2BytesOfAffine x y ≠ g2IdBytes) :
+    specG2Bytes allowInf (g2BytesOfAffine x y) = .ok (.aff x y) := by
+  have himpl := g2_round x y hxa hxb hya hyb hc
+  exact g2_bytes_impl_refines_spec_partial allowInf _ x y himpl.1 himpl.2 hs hid
+
+set_option maxRecDepth 100000 in
+theorem g2_identity_spec : specG2Bytes true g2IdBytes = .ok .inf ∧ specG2Bytes false g2IdBytes = .err := by
+  decide +kernel
+
+/-! ## `spec_sound` for the remaining forms -/
+
+set_option maxRecDepth 100000 in
+/-- **`spec_sound`** (bytes, G1): exactly 128 bytes, tag `04`, zero padding, coordinates `< p`, on
+the curve, `r•P = O`; never the identity -/
+theorem g1_bytes_spec_sound (bs : Bytes) (v : AffPt) (h : specG1Bytes bs = .ok v) :
+    bs.length = 128 ∧ bs.headD 0 = 4 ∧ slice bs 65 63 = List.replicate 63 0 ∧
+    ∃ x y, v = .aff ⟨x, 0⟩ ⟨y, 0⟩ ∧ x < p ∧ y < p ∧ onCurveAff B1 ⟨x, 0⟩ ⟨y, 0⟩ = true ∧
+      inSubgroup B1 (Pt.ofAffine ⟨x, 0⟩ ⟨y, 0⟩) = true := by
+  unfold specG1Bytes at h
+  dsimp only at h
+  split_ifs at h with hl hr hc
+  · simp only [Bool.and_eq_true] at hc
+    have hv := (Res.ok.inj h).symm
+    refine ⟨by omega, ?_, ?_, _, _, hv, ?_, ?_, hc.1, hc.2⟩
+    · by_contra hne; exact hr (Or.inl hne)
+    · by_contra hne; exact hr (Or.inr (Or.inr (Or.inr hne)))
+    · by_contra hne; exact hr (Or.inr (Or.inl (by omega)))
+    · by_contra hne; exact hr (Or.inr (Or.inr (Or.inl (by omega))))
+
+set_option maxRecDepth 100000 in
+/-- **`spec_sound`** (bytes, Pair): exactly 512 bytes and the value has order dividing `r`
+(`g^r = 1`, in particular `g ≠ 0`) -/
+theorem pair_bytes_spec_sound (bs : Bytes) (g : F12) (h : specPairBytes bs = .ok g) :
+    bs.length = 512 ∧ (F12.pow g r).isOne = true := by
+  unfold specPairBytes at h
+  dsimp only at h
+  split_ifs at h with hl hr hc
+  have hg := Res.ok.inj h
+  exact ⟨by omega, hg ▸ hc⟩
+
+set_option maxRecDepth 100000 in
+/-- **`spec_sound`** (text, G1 / G2 / G2Inf): an accepted string consists of exactly the required
+number of `index residue` pairs (every index a positive `i32` up to `FEXCESS`, every residue at
+most 70 hex digits), and the projective point it denotes is either the identity (`x = z = 0`)
+for a type that allows it, or a point on the curve with `r•P = O` -/
+theorem point_text_spec_sound (B : F2) (n : ℕ) (ofRaw : List RawFp → Pt) (allowInf : Bool)
+    (s : List Char) (t : TextPt) (h : specPointText B n ofRaw allowInf s = .ok t) :
+    parseComponents n (splitWs s) = some t.raw ∧ t.raw.all specDomain = true ∧
+    (((ofRaw t.raw).z.isZero = true ∧ allowInf = true ∧ (ofRaw t.raw).x.isZero = true) ∨
+     ((ofRaw t.raw).z.isZero = false ∧ onCurveProj B (ofRaw t.raw) = true ∧
+        inSubgroup B (ofRaw t.raw) = true)) := by
+  unfold specPointText at h
+  cases hp : parseComponents n (splitWs s) with
+  | none => rw [hp] at h; simp at h
+  | some cs =>
+    rw [hp] at h
+    dsimp only at h
+    split_ifs at h with hd hz hi hc
+    · have ht := Res.ok.inj h
+      subst ht
+      simp only [Bool.and_eq_true] at hi
+      refine ⟨rfl, by simpa using hd, Or.inl ⟨hz, hi.1, hi.2⟩⟩
+    · have ht := Res.ok.inj h
+      subst ht
+      simp only [Bool.and_eq_true] at hc
+      refine ⟨rfl, by simpa using hd, Or.inr ⟨by simpa using hz, hc.1, hc.2⟩⟩
+
 end CL.C16
